@@ -10,6 +10,7 @@ static mut BASE: *mut u8 = core::ptr::null_mut();
 /// host layout: physical address p lives at BASE + (p ^ XOR_MASK) (a permuted frame-to-pointer mapping)
 pub static XOR_MASK: AtomicU64 = AtomicU64::new(0);
 /// root of the hierarchy the software MMU walks (the emulated CR3)
+pub static REC_INDEX: AtomicU64 = AtomicU64::new(0);
 pub static MMU_ROOT: AtomicU64 = AtomicU64::new(0);
 pub static MMU_ENABLED: AtomicBool = AtomicBool::new(false);
 pub static FAULTED: AtomicBool = AtomicBool::new(false);
